@@ -113,6 +113,7 @@ impl Default for TimeScale {
 }
 
 impl TimeScale {
+    #[allow(dead_code)]
     pub(crate) const fn formatted_len(&self) -> usize {
         match &self {
             Self::QZSST => 5,
